@@ -15,8 +15,8 @@
 use std::{any::TypeId, fmt::Debug, ops::Sub};
 
 use ndarray::{
-    Array, ArrayBase, ArrayView, ArrayViewMut, ArrayViewMut1, Axis, AxisDescription, Data, DimAdd,
-    Dimension, IntoDimension, Ix1, OwnedRepr, RemoveAxis, Slice, Zip,
+    Array, ArrayBase, ArrayView, ArrayViewMut, ArrayViewMut1, Axis, Data, DimAdd, Dimension,
+    IntoDimension, Ix1, OwnedRepr, RemoveAxis, Zip,
 };
 use num_traits::{cast, Num, NumCast};
 
@@ -298,25 +298,23 @@ where
         }
 
         // Perform interpolation for each index
+        let expect = self.get_buffer_shape(xs.raw_dim());
+        assert!(
+            buffer.raw_dim() == expect,
+            "buffer has the wrong shape. expected: {:?}, got: {:?}",
+            expect.slice(),
+            buffer.shape()
+        );
+        let smaller_dim = self.data.raw_dim().remove_axis(Axis(0));
         for (index, &x) in xs.indexed_iter() {
             let current_dim = index.clone().into_dimension();
-            let subview =
-                buffer.slice_each_axis_mut(|AxisDescription { axis: Axis(nr), .. }| {
-                    match current_dim.as_array_view().get(nr) {
-                        Some(idx) => Slice::from(*idx..*idx + 1),
-                        None => Slice::from(..),
-                    }
-                });
-
-            let subview =
-                match subview.into_shape_with_order(self.data.raw_dim().remove_axis(Axis(0))) {
-                    Ok(view) => view,
-                    Err(err) => {
-                        let expect = self.get_buffer_shape(xs.raw_dim()).into_pattern();
-                        let got = buffer.dim();
-                        panic!("{err} expected: {expect:?}, got: {got:?}")
-                    }
-                };
+            let mut subview = buffer.view_mut().into_dyn();
+            for &idx in current_dim.slice() {
+                subview = subview.index_axis_move(Axis(0), idx);
+            }
+            let subview = subview
+                .into_dimensionality::<D::Smaller>()
+                .unwrap_or_else(|err| panic!("{err} expected: {smaller_dim:?}"));
 
             self.strategy.interp_into(self, subview, x)?;
         }
@@ -331,6 +329,12 @@ where
     where
         Sq: Data<Elem = Sd::Elem>,
     {
+        assert!(
+            buffer.shape()[1..] == self.data.shape()[1..],
+            "buffer has the wrong shape. expected: {:?}, got: {:?}",
+            &self.data.shape()[1..],
+            &buffer.shape()[1..]
+        );
         Zip::from(xs)
             .and(buffer.axis_iter_mut(Axis(0)))
             .fold_while(Ok(()), |_, &x, buf| {
